@@ -189,7 +189,10 @@ def check(case, stats: Stats) -> None:
             for rr in (o, t):
                 if norm_record(by_uri[rr["uri_prefix"]]) != norm_record(rr):
                     raise Violation(f"pair {old!r}->{new!r} targets a prefix of another, un-renamed record but record {rr['prefix']!r} changed to {by_uri[rr['uri_prefix']]!r}")
-    if not set(mapping) & set(mapping.values()):
+    app_targets = list(applicable.values())
+    if not set(mapping) & set(mapping.values()) and len(set(app_targets)) == len(app_targets):
+        # exact model only where the statement determines the result: no chains, and no two applicable pairs competing for the
+        # same new prefix (which of them wins depends on the processing order, which the statement leaves open)
         want = _sequential_model(recs, mapping)
         if norm_records(got) != norm_records(want):
             raise Violation(f"non-transitive remapping {mapping!r}: records {norm_records(got)!r}, sequential model {norm_records(want)!r}")
